@@ -3,6 +3,7 @@
 # XXX: this module is used exclusively by the Phenix GUI, which needs an
 # index of all current phil parameters, and an easy way to change them.
 
+import copy
 import io
 import os
 import pickle
@@ -468,6 +469,9 @@ class index:
                     if path in self._multiple_scopes or path in self._multiple_defs:
                         redundant_paths.append(path)
                 if len(redundant_paths) > 0:
+                    # prune a copy: if the merge below is refused, the working
+                    # parameters (and the index built on them) stay as they were
+                    old_phil = copy.deepcopy(old_phil)
                     delete_phil_objects(
                         old_phil, redundant_paths, only_scope=only_scope
                     )
